@@ -213,12 +213,21 @@ func (sgi ShardGroupInfo) TargetShards(mst *MeasurementInfo, ski *ShardKeyInfo, 
 	return shards
 }
 
+// maxConditionTagGroups bounds the number of alternatives getConditionTags keeps for an AND of ORs;
+// beyond it the condition is treated as "may match in any shard".
+const maxConditionTagGroups = 1024
+
+// getConditionTags returns the alternatives of tag equalities a row has to satisfy: a row matching the
+// condition satisfies every equality of at least one of the returned groups. nil means that nothing
+// is known, i.e. a matching row may live in any shard.
 func getConditionTags(condition influxql.Expr, schema *CleanSchema) []*influx.PointTags {
 	if condition == nil {
 		return nil
 	}
 
 	switch expr := condition.(type) {
+	case *influxql.ParenExpr:
+		return getConditionTags(expr.Expr, schema)
 	case *influxql.BinaryExpr:
 		switch expr.Op {
 		case influxql.AND:
@@ -228,24 +237,29 @@ func getConditionTags(condition influxql.Expr, schema *CleanSchema) []*influx.Po
 			if ltags == nil {
 				return rtags
 			}
+			if rtags == nil {
+				return ltags
+			}
+			if len(ltags)*len(rtags) > maxConditionTagGroups {
+				return nil
+			}
+			// (l1 OR l2 ..) AND (r1 OR r2 ..): every pair of a left and a right alternative
+			tags := make([]*influx.PointTags, 0, len(ltags)*len(rtags))
 			for i := range ltags {
 				for j := range rtags {
-					for ti := range *rtags[j] {
-						if v, ok := schema.GetTyp((*rtags[j])[ti].Key); ok && v == influx.Field_Type_Tag {
-							*ltags[i] = append(*ltags[i], (*rtags[j])[ti])
-						}
-					}
+					group := make(influx.PointTags, 0, len(*ltags[i])+len(*rtags[j]))
+					group = append(group, *ltags[i]...)
+					group = append(group, *rtags[j]...)
+					tags = append(tags, &group)
 				}
 			}
-			return ltags
+			return tags
 		case influxql.OR:
 			ltags := getConditionTags(expr.LHS, schema)
 			rtags := getConditionTags(expr.RHS, schema)
-			if ltags == nil {
-				return rtags
-			}
-			if rtags == nil {
-				return ltags
+			// an operand without tag equalities can be true for rows of any shard
+			if ltags == nil || rtags == nil {
+				return nil
 			}
 			return append(ltags, rtags...)
 		case influxql.EQ:
